@@ -121,3 +121,88 @@ package protocol
 //@ func newQueue
 //@   chansafe[C17]
 //@   modifies heap:MD_map_pkg_party_ID_ppkg_protocol_Message, heap:MV_map_pkg_party_ID_ppkg_protocol_Message
+
+// ---------------------------------------------------------------- TwoPartyHandler
+
+//@ pred fin2(h *TwoPartyHandler) := h.err != nil || h.result != nil
+//@ pred hshape2(h *TwoPartyHandler) := h.out != nil && h.round != nil && h.messages != nil
+//@ pred hinv2(h *TwoPartyHandler) := hshape2(h) && (closed(h.out) == fin2(h)) && !(h.err != nil && h.result != nil)
+//@ pred hopen2(h *TwoPartyHandler) := hshape2(h) && !closed(h.out) && h.err == nil && h.result == nil
+
+//@ guarded_by[C17] TwoPartyHandler.mtx: round, err, result, messages
+//@ lockinv[C17] TwoPartyHandler.mtx := hinv2(self)
+
+//@ func (*TwoPartyHandler).Result
+//@   chansafe[C17]
+//@   requires h != nil && !excl(h.mtx)
+//@   ensures[C17] !excl(h.mtx)
+//@   ensures[C17] !(result0 != nil && result1 != nil)
+//@   ensures[C17] atlock(fin2(h)) ==> (result0 != nil || result1 == atlock(h.err))
+
+//@ func (*TwoPartyHandler).Listen
+//@   chansafe[C17]
+//@   requires h != nil && !excl(h.mtx)
+//@   ensures[C17] !excl(h.mtx)
+
+//@ func (*TwoPartyHandler).Stop
+//@   chansafe[C17]
+//@   requires h != nil && !excl(h.mtx)
+//@   ensures[C17] !excl(h.mtx)
+//@   ensures[C17] fin2(h) && closed(h.out)
+//@   ensures[C17] atlock(fin2(h)) ==> (h.err == atlock(h.err) && h.result == atlock(h.result))
+//@   ensures[C17] !atlock(fin2(h)) ==> h.err != nil
+
+//@ func (*TwoPartyHandler).CanAccept
+//@   chansafe[C17]
+//@   requires h != nil && !excl(h.mtx)
+//@   ensures[C17] !excl(h.mtx)
+
+//@ func (*TwoPartyHandler).canAccept
+//@   chansafe[C17]
+//@   requires h != nil && excl(h.mtx) && hshape2(h)
+//@   modifies nothing
+//@   ensures result ==> msg != nil
+
+//@ func (*TwoPartyHandler).Accept
+//@   chansafe[C17]
+//@   requires h != nil && !excl(h.mtx)
+//@   ensures[C17] !excl(h.mtx)
+//@   ensures[C17] atlock(fin2(h)) ==> (h.err == atlock(h.err) && h.result == atlock(h.result))
+
+//@ func (*TwoPartyHandler).abort
+//@   chansafe[C17]
+//@   requires h != nil && excl(h.mtx) && hshape2(h) && !closed(h.out)
+//@   modifies TwoPartyHandler.err, chans
+//@   ensures[C17] closed(h.out)
+//@   ensures[C17] err != nil ==> h.err != nil
+//@   ensures[C17] err == nil ==> h.err == old(h.err)
+
+//@ func (*TwoPartyHandler).canAdvance
+//@   chansafe[C17]
+//@   requires h != nil && excl(h.mtx) && hshape2(h)
+//@   modifies nothing
+
+//@ func (*TwoPartyHandler).verifyMessage
+//@   chansafe[C17]
+//@   requires h != nil && excl(h.mtx) && hshape2(h)
+//@   modifies shared
+//@   ensures hshape2(h)
+
+//@ func extractRoundMessage
+//@   chansafe[C17]
+//@   requires msg != nil && r != nil
+//@   modifies shared
+
+//@ func (*TwoPartyHandler).advance
+//@   chansafe[C17]
+//@   requires h != nil && excl(h.mtx) && hopen2(h)
+//@   modifies all
+//@   ensures[C17] hinv2(h) && excl(h.mtx)
+//@   loop 1: invariant hopen2(h)
+//@   loop 2: invariant hopen2(h)
+
+//@ func NewTwoPartyHandler
+//@   chansafe[C17]
+//@   requires create != nil
+//@   ensures[C17] result1 == nil ==> (result0 != nil && hinv2(result0))
+//@   ensures[C17,C20] result1 != nil ==> result0 == nil
